@@ -112,3 +112,15 @@ Example c08_example_accepted :
     [ITimestamp 1000000; IValue (bs "a") (VString (bs "x")); IValue (bs "m") (VMetric [OUnsigned 3] UNone [] FNone)] 0 [] []
     = (s', ROk, out).
 Proof. eexists _, _. vm_compute. reflexivity. Qed.
+
+(* --- soundness for entries that route no metric to a dimension-set record: with the uniqueness and name checks on,
+   an accepted entry yields exactly one record and no two of its members share a name *)
+From MV Require Import Json.Json Emf.Spec Emf.Content Emf.Sound.
+Theorem c08_sound_without_routing : forall c s mult e now ftab script s' out,
+  skip_unique c = false -> skip_names c = false ->
+  no_routing e -> has_unroutable e = false ->
+  format c s mult e now ftab script = (s', ROk, out) ->
+  exists a, emf_docs c mult e now ftab = [global_doc c (doc_ts e now) a] /\
+            NoDup (map fst (members_of (global_doc c (doc_ts e now) a))).
+Proof. exact sound_without_routing. Qed.
+Print Assumptions c08_sound_without_routing.
